@@ -39,12 +39,14 @@ theorem interp_row_apply (shape : List Nat) (n : Nat) (pos : Nat → List Int) (
 
 /-- RegriddingOperator, one axis: exact on affine data `x[k] = α + β·k`, for every output pixel — also at the
     clamped last interval, where the code extrapolates linearly -/
-theorem regrid_exact_affine (n N : Nat) (hN : 0 < N) (α β : F) (j : Nat) (hj : j < N) :
+theorem regrid_exact_affine (n N : Nat) (hn : 2 ≤ n) (hN : 0 < N) (α β : F) (j : Nat) (hj : j < N) :
     apply (regrid1 (fun a b => (a : F) / (b : F)) n N) (fun k => α + β * (k : F)) j
       = α + β * ((j * n : Nat) : F) / (N : F) := by
   have hspec := C02.regrid1_spec (K := F) (fun a b => (a : F) / (b : F)) n N (fun k => α + β * (k : F)) j hj
   simp only at hspec
   rw [hspec]
+  have hb1 : min (n - 1) (min (n - 2) (j * n / N) + 1) = min (n - 2) (j * n / N) + 1 := by omega
+  rw [hb1]
   have hb : min (n - 2) (j * n / N) * N ≤ j * n :=
     le_trans (Nat.mul_le_mul_right _ (Nat.min_le_right _ _)) (Nat.div_mul_le_self _ _)
   have hNF : (N : F) ≠ 0 := by exact_mod_cast (Nat.pos_iff_ne_zero.mp hN)
